@@ -860,7 +860,7 @@ func (m *Model) Step(u *ops.Universe, op ops.Op, out ops.Out) string {
 
 	case "upResume", "upAttach":
 		var sl slot
-		if op.Mode == 3 {
+		if op.Mode == 3 && op.K == "upResume" {
 			sl = slot{name, op.S, 0}
 		} else if op.K == "upAttach" {
 			// a further handle on the session of slot O1, which stays open
@@ -869,6 +869,11 @@ func (m *Model) Step(u *ops.Universe, op ops.Op, out ops.Out) string {
 				return "harness: attach to an empty slot was not skipped"
 			}
 			sl = src
+			if op.Mode == 3 && name != src.repo {
+				// the id is presented in another repository, where it names no session of that repository
+				sl = slot{name, src.id, 0}
+				m.ev("foreign-upload-id")
+			}
 			delete(m.slots, op.W)
 		} else {
 			var ok bool
